@@ -15,7 +15,7 @@ PROP = "C13"
 LEVEL = "model_checking"
 RULE = ("BFS over operation histories on configuration A per (shape, leaf kind), with B0 built before and B1 after; "
         "non-trivial = the operation changed A; distinct = distinct (shape, leaf, state of A, operation)")
-ASSUMPTIONS = ["aliasing the user creates by handing one mutable object to two untyped fields is not judged", "salted digests are compared up to their salt"]
+ASSUMPTIONS = ["aliasing the user creates by handing one mutable object to two untyped fields is not judged; objects nested inside an untyped value travel by reference through to_tree()", "salted digests are compared up to their salt"]
 
 
 def bounds(tier):
@@ -34,6 +34,7 @@ def jobs(tier):
             out.append({"name": "%s/%s" % (sh, leaf), "shape": sh, "leaf": leaf, "depth": b["depth"], "tier": tier})
     for fmt in (LOAD_FORMATS if tier == "thorough" else LOAD_FORMATS[:3]):
         out.append({"name": "loaded/%s" % fmt, "kind": "loaded", "fmt": fmt})
+    out.append({"name": "tree-transfer", "kind": "transfer"})
     return out
 
 
@@ -189,8 +190,57 @@ def _loaded_pairs(job, ctx):
     ctx.sample({"loaded_pairs": fmt, "mutations": [m[0] for m in mutations]})
 
 
+def _tree_transfer(job, ctx):
+    """values travel from A to B as a Python tree (`b.load_tree(a.to_tree())`, `schema(**a.to_tree())`); afterwards an in-place
+    mutation of a container *value itself* (not of objects nested inside an untyped value) on either side must not show
+    on the other"""
+    import cincoconfig as cc
+    only = job.get("only")
+    muts = [("ul", lambda c: c.ul.append("m")), ("ud", lambda c: c.ud.__setitem__("new", 1)), ("sub.ul", lambda c: c.sub.ul.append("m")),
+            ("dl[k]", lambda c: c.dl["k"].append("m")), ("tl", lambda c: c.tl.append(9)), ("td", lambda c: c.td.__setitem__("n", 2)),
+            ("ll[0]", lambda c: c.ll[0].append("m"))]
+    for route in ("load_tree", "ctor", "load_tree-virtual"):
+        for side in ("receiver", "sender"):
+            for mname, mutate in muts:
+                ident = [route, side, mname]
+                if only is not None and only != ident:
+                    continue
+                s = cc.Schema()
+                s.ul = cc.ListField(); s.ud = cc.DictField(); s.tl = cc.ListField(cc.IntField()); s.td = cc.DictField(cc.StringField(), cc.IntField())
+                s.dl = cc.DictField(cc.StringField(), cc.ListField()); s.ll = cc.ListField(cc.ListField())
+                s.sub.ul = cc.ListField()
+                a = s()
+                a.ul = [1, 2]; a.ud = {"a": 1}; a.tl = [1]; a.td = {"k": 1}; a.dl = {"k": [1]}; a.ll = [[1], [2]]; a.sub.ul = [3]
+                case = {"kind": "transfer", "jobparams_full": {k: v for k, v in job.items() if k not in ("single", "only")}, "only": ident, "job": job["name"]}
+                try:
+                    tree = a.to_tree(virtual=True) if route.endswith("virtual") else a.to_tree()
+                    if route == "ctor":
+                        b = s(**tree)
+                    else:
+                        b = s()
+                        b.load_tree(tree)
+                    before_a, before_b = V.canon(cc.asdict(a)), V.canon(cc.asdict(b))
+                    mutate(b if side == "receiver" else a)
+                except Exception as exc:  # noqa
+                    ctx.case(("transfer",) + tuple(ident), "transfer:raises", False)
+                    ctx.violation("C13|transfer|%s|%s|raises" % (route, mname), "transferring values as a tree raised %r" % (exc,), case)
+                    continue
+                ctx.transitions += 1
+                ctx.case(("transfer",) + tuple(ident), "transfer:%s:%s" % (route, side), True)
+                other_now = V.canon(cc.asdict(a if side == "receiver" else b))
+                if other_now != (before_a if side == "receiver" else before_b):
+                    ctx.violation("C13|transfer|%s|%s|%s-changed" % (route, mname, "sender" if side == "receiver" else "receiver"),
+                                  "B received A's values through %s; mutating %s on the %s changed the other configuration" % (route, mname, side), case)
+    ctx.sample({"tree_transfer": [m[0] for m in muts]})
+
+
 def run_job(job, ctx):
     single = job.get("single")
+    if single and single.get("kind") == "transfer":
+        j = dict(single["jobparams_full"]); j["only"] = single["only"]
+        return _tree_transfer(j, ctx)
+    if job.get("kind") == "transfer":
+        return _tree_transfer(job, ctx)
     if single and single.get("kind") == "loaded":
         j = dict(single["jobparams_full"]); j["only"] = single["only"]
         return _loaded_pairs(j, ctx)
